@@ -124,6 +124,14 @@ func c16Contexts() []string {
 	return ctx
 }
 
+// c16In: an ইনপুট() expression yielding the value q denotes (a number is read as text and converted by arithmetic).
+func c16In(q string) string {
+	if strings.HasPrefix(q, `"`) {
+		return BI("input")
+	}
+	return "(" + BI("input") + " - 0)"
+}
+
 // c16FractionProducers: producers of a non-integral number.
 func c16FractionProducers(lit string, half string) []c16Producer {
 	// lit e.g. "1.5"; half = the literal of lit/2 (exactly representable)
@@ -281,6 +289,32 @@ func c16Run(c *Ctx) {
 			}
 		}
 	}
+	// several different values from the same kind of producer side by side: each lands where it was written
+	// (property values of a literal whose names are not in sorted order, elements, arguments, operands)
+	for vi, vs := range [][3]string{{`"a"`, `"b"`, `"c"`}, {"3", "1", "2"}, {`"10"`, `"9"`, `"x"`}, {"0.5", `"k"`, "7"}} {
+		raw := func(q string) string { return strings.Trim(q, `"`) }
+		for ci, body := range []string{Print("{y: %1, x: %2}"), Print("{y: %1, x: %2}.x"), Var("rec", "{nm: %1, ad: %2, ag: %3}") + " " + Print("rec.nm") + " " + Print("rec.ad") + " " + Print("rec.ag"),
+			Print("{b: %1, a: %2, c: %3}"), Print("[%1, %2, %3]"), Print("idf([%1, %2])"), Print(BI("append", "[%1]", "%2", "%3")), Print(`%1 + "-" + %2 + "-" + %3`), Print("{k: {z: %1, y: %2}, j: %3}"),
+			Var("o3", "{}") + " o3.z = %1; o3.a = %2; " + Print("o3"), Print("{z: %1, a: [%2, {q: %3}]}"), Print(BI("values", "{m: %1, d: %2}"))} {
+			fill := func(a, b, c3 string) string {
+				return pre + Print(`"start"`) + "\n" + strings.NewReplacer("%1", a, "%2", b, "%3", c3).Replace(body) + "\n" + Print(`"end"`) + "\n"
+			}
+			lit := fill(vs[0], vs[1], vs[2])
+			inp := fill(c16In(vs[0]), c16In(vs[1]), c16In(vs[2]))
+			fnp := Var("feed", "["+vs[0]+", "+vs[1]+", "+vs[2]+"]") + "\n" + Var("fi", "0") + "\n" + Fun("nxt", "", " fi = fi + 1; "+Ret("feed[fi - 1]")+" ") + "\n" + fill("nxt()", "nxt()", "nxt()")
+			n := strings.Count(body, "%")
+			sin := strings.Join([]string{raw(vs[0]), raw(vs[1]), raw(vs[2])}[:n], "\n") + "\n"
+			cs := &Case{Gen: "several-values", Src: lit, Alt: []string{inp, fnp}, X: map[string]string{"kind": "mixed", "context": fmt.Sprintf("several #%d values #%d", ci, vi), "stdins": "\x1f" + sin + "\x1f", "producers": "literal,input,counter-function"}}
+			if c.Mine() {
+				c16Judge(c, cs)
+			}
+			if c.Mine() {
+				cc := *cs
+				cc.Mode = "cli"
+				c16Judge(c, &cc)
+			}
+		}
+	}
 	k := 0
 	for ci, ctx := range ctxs {
 		for _, v := range vals {
@@ -355,7 +389,7 @@ func init() {
 		Assumptions: []string{"no expected output is needed: the oracle is pairwise equality; the producers are known to yield the same value by the language's own definitions (e.g. 7&3 = 3)"},
 		Run:         c16Run,
 		Judge:       c16Judge,
-		MustCount:   func(c *Ctx) []string { return []string{"pairs_compared", "contexts_value", "contexts_fault", "producer:string:input", "producer:string:concat", "producer:number:bitwise-or", "producer:number:len", "producer:number:round", "cli_runs"} },
+		MustCount:   func(c *Ctx) []string { return []string{"pairs_compared", "contexts_value", "contexts_fault", "producer:string:input", "producer:string:concat", "producer:number:bitwise-or", "producer:number:len", "producer:number:round", "producer:mixed:input", "producer:mixed:counter-function", "cli_runs"} },
 	})
 }
 
